@@ -8,6 +8,8 @@ func init() { register("C10", c10) }
 
 func c10(p *core.Program, r *core.Report) {
 	r.Rule("R1", "checksum invalidation after storage mutation: for every function that mutates <fragment>.storage (origin) and every fragment entry point that reaches it (boundary), every path from the mutation to a normal return passes delete(<fragment>.checksums, _) or an assignment to <fragment>.checksums; error exits and the mutator-reported-no-change early return are exempt")
+	r.Rule("R2", "a cached checksum is current: a value stored into an element of <fragment>.checksums is a call result produced in that function with no Lock/Unlock/RLock/RUnlock of the fragment's mutex between its production and the store")
+	c10ChecksumIsCurrent(p, r)
 	r.NotDecided = "that the invalidated key is the block of the mutated row for every value (R3 checks the key expression's shape only); hash collisions"
 	b, err := newFxBase(p)
 	if err != nil {
